@@ -41,7 +41,12 @@ class n0list_(list):
             raise_exception = False
             if_not_found = ''
         if any(char in xpath for char in "/["):
-            _parent_node, _node_name_index, cur_value, xpath_found_str, not_found_xpath_list = self._find(xpath, self, return_lists)
+            try:
+                _parent_node, _node_name_index, cur_value, xpath_found_str, not_found_xpath_list = self._find(xpath, self, return_lists)
+            except (ValueError, IndexError, KeyError, TypeError, SyntaxError) as caught_ex:
+                if raise_exception:
+                    raise caught_ex
+                return if_not_found
             if not not_found_xpath_list:
                 return cur_value
             else:
@@ -58,6 +63,8 @@ class n0list_(list):
                 else:
                     return if_not_found
             except TypeError as ex:
+                if not raise_exception:
+                    return if_not_found
                 n0error(ex)
                 n0debug("self")
                 n0debug_calc(n0eval(xpath), f"n0eval('{xpath}')")
